@@ -58,7 +58,7 @@ def t_FUNCTION(t):
 
 
 def t_XLERROR(t):
-    r'\#N\/A|\#[A-Z0-9\/_]+(\!|\?)?'
+    r'\#N\/A|\#GETTING_DATA|\#[A-Z0-9\/_]+(\!|\?)?'
     return t
 
 
